@@ -164,6 +164,17 @@ def work(ctx, tier):
     for i in range(n):
         kind = rng.choice(["marker", "timeout-family", "builtin", "dynamic", "dynamic", "dynamic", "base"])
         typ, marker, tdesc = mk_type(rng, kind)
+        if marker is None and kind == "dynamic" and rng.random() < 0.08:
+            # `args` shadowed by a class attribute: whatever built-in value it holds (None, a number, an object, a string, a dict), the
+            # classifiers answer (totality only: which answer is right for such an object is pinned nowhere)
+            shadow = rng.choice([None, 5, 1.5, True, object(), "40001 deadlock", b"x", {"a": 1}, 429, (), [503]])
+            typ = type(typ.__name__, (typ,), {"args": shadow})
+            e = typ()
+            ctx.cnt["exception_types_with_args_shadowed_by_a_class_attribute"] += 1
+            case = {"type": tdesc + " with class attribute args=" + srepr(shadow), "type_name": typ.__name__, "attrs": {}, "args": srepr(shadow)}
+            for fn in (default_classifier, strict_classifier, http_classifier, sqlstate_classifier, pyodbc_classifier):
+                total(fn, e, case)
+            continue
         try:
             e = typ("boom") if rng.random() < 0.5 else typ()
         except Exception:  # noqa: BLE001
@@ -211,7 +222,7 @@ def work(ctx, tier):
                 args = None
         if not settable:
             continue
-        case = {"type": tdesc, "type_name": type(e).__name__, "attrs": {k: srepr(v) for k, v in attrs.items()}, "args": [srepr(x) for x in getattr(e, "args", ())]}
+        case = {"type": tdesc, "type_name": type(e).__name__, "attrs": {k: srepr(v) for k, v in attrs.items()}, "args": [srepr(x) for x in e.args] if isinstance(getattr(e, "args", None), (tuple, list)) else srepr(getattr(e, "args", None))}
         ctx.cnt["type_kind:" + kind] += 1
         for a, v in attrs.items():
             ctx.cnt["attr_value_kind:" + type(v).__name__] += 1
